@@ -688,8 +688,16 @@ pub fn layout(rng: &mut Rng, toks: &[Tok], lo: &Layout) -> (String, Vec<usize>, 
         offs.push(s.len());
         s.push_str(&t.text);
     }
-    if !lo.compact && rng.chance(1, 2) {
-        s.push('\n');
+    if !lo.compact {
+        // the end of the document: nothing, a final terminator of every kind, or trailing blanks
+        s.push_str(match rng.below(12) {
+            0..=4 => "\n",
+            5 => "\r",
+            6 => "\r\n",
+            7 => "\n\r",
+            8 => " ",
+            _ => "",
+        });
     }
     (s, offs, comments)
 }
